@@ -17,6 +17,7 @@ From Coq Require Import String List NArith ZArith Ascii Bool Arith.
 From SV Require Import Lib.Bytes Model.FwLife Model.FwLifeSpec Proofs.FwLife_lemmas Proofs.FwLife_general
   Proofs.FwLife_gen_owner Proofs.FwLife_gen_pf Proofs.FwLife_gen_pf_faults.
 From SV Require Import Model.FwLog Proofs.FwLog_lemmas.
+From SV Require Proofs.FwLife_gen_nft.
 Import ListNotations.
 
 (* ================================================================== *)
@@ -156,6 +157,44 @@ Theorem c04_nft_all_exits : forall c,
   forall s0 k cut, erase c s0 = s0 -> sess_ok c s0 k cut = true.
 Proof. exact nft_all_exits. Qed.
 Print Assumptions c04_nft_all_exits.
+
+(* Why the nft set-up may run over its own left-overs (the only method whose set-up does not begin with a restore):
+   every set-up command is re-entrant.  The kernel model also knows `nft create chain` (which methods/nft.py does NOT
+   issue): the same as `add chain` on a fresh name, an error (EEXIST) on an existing chain -- so it is never re-entrant,
+   and over a table that a failed `delete table` left behind it fails where `add chain` succeeds.  (Kernel-level facts;
+   they make the harness answer a changed set-up sequence the way the real nft does.) *)
+Theorem c04_nft_create_chain_exact : forall t c spec L,
+  nft_exec (NCreateChain t c spec) L =
+  match find_tbl t L with
+  | Some T => match find_chain c T with Some _ => None | None => nft_exec (NAddChain t c spec) L end
+  | None => None
+  end.
+Proof. exact FwLife_gen_nft.nft_create_chain_spec. Qed.
+Print Assumptions c04_nft_create_chain_exact.
+
+Theorem c04_nft_add_chain_reentrant : forall t c spec L L',
+  nft_exec (NAddChain t c spec) L = Some L' -> nft_exec (NAddChain t c spec) L' = Some L'.
+Proof. exact FwLife_gen_nft.nft_add_chain_reentrant. Qed.
+Print Assumptions c04_nft_add_chain_reentrant.
+
+Theorem c04_nft_create_chain_not_reentrant : forall t c spec L L',
+  nft_exec (NCreateChain t c spec) L = Some L' -> nft_exec (NCreateChain t c spec) L' = None.
+Proof. exact FwLife_gen_nft.nft_create_chain_not_reentrant. Qed.
+Print Assumptions c04_nft_create_chain_not_reentrant.
+
+Theorem c04_nft_create_over_leftover : forall t c spec spec' L T rs,
+  find_tbl t L = Some T -> find_chain c T = Some rs ->
+  nft_exec (NCreateChain t c spec) L = None /\ nft_exec (NAddChain t c spec') L = Some L.
+Proof. exact FwLife_gen_nft.nft_create_over_leftover. Qed.
+Print Assumptions c04_nft_create_over_leftover.
+
+(* non-vacuity: after a session whose `delete table` failed the table with the session's chain is there *)
+Example c04_nft_create_over_leftover_witness :
+  let t := nft_table V4 P1230 in
+  let L := [(t, [(bs "prerouting", []); (bs "output", []); (t, [])])] in
+  nft_exec (NCreateChain t t []) L = None /\ nft_exec (NAddChain t t []) L = Some L /\
+  nft_exec (NCreateChain t t []) [(t, [])] = Some [(t, [(t, [])])].
+Proof. vm_compute. repeat split. Qed.
 
 (* non-vacuity: the sample plans and kernels satisfy every hypothesis ... *)
 Example c04_general_hyps_satisfiable :
